@@ -20,6 +20,7 @@ import io
 import logging
 import os
 import random
+import shutil
 import sys
 import tempfile
 import gc
@@ -45,6 +46,9 @@ _REAL = {
     "os_open": os.open,
     "truncate": os.truncate,
     "link": os.link,
+    "os_write": os.write,
+    "os_close": os.close,
+    "ftruncate": os.ftruncate,
 }
 
 _ACTIVE: "World | None" = None
@@ -177,6 +181,8 @@ class SimFileIO(_RealFileIO):
             except OSError:
                 real = f"<fd {path}>"
             self._rel = world.rel(real)
+            if closefd:
+                world.raw_fds.pop(path, None)  # the file object owns the descriptor now
         else:
             self._rel = world.rel(os.fspath(path))
         replaces = ("w" in mode) or ("x" in mode)
@@ -360,6 +366,7 @@ class World:
         self.nonyield_paths = ()  # operations on these commute with everything (immutable during a step)
         self.events = 0
         self._last_failed = None
+        self.raw_fds = {}  # fd opened through os.open on a sandbox path -> (relative path, owning process)
 
     # -- helpers -----------------------------------------------------------
     def rel(self, path):
@@ -726,7 +733,53 @@ class World:
             raise
         if mutating:
             self.stamp_fd(fd)
+        self.raw_fds[fd] = (self.rel(os.fspath(path)), p)
         return fd
+
+    def sim_os_write(self, fd, data):
+        """os.write on a descriptor obtained from os.open on a sandbox path:
+        the same event and fault semantics as a raw FileIO write."""
+        ent = self.raw_fds.get(fd)
+        if ent is None or self.suspended:
+            return _REAL["os_write"](fd, data)
+        rel, owner = ent
+        n = _nbytes(data)
+        if owner.zombie:
+            return n
+        dec = self.event("write", rel, n, True)
+        if dec is not None:
+            kind, j = dec[0], dec[1]
+            if kind == "torn_write":
+                if j:
+                    _REAL["os_write"](fd, bytes(memoryview(data).cast("B")[:j]))
+                    self.stamp_fd(fd)
+                self.kill_current(owner)
+                raise SimCrash(f"torn os.write {j}/{n} on {rel}")
+            if kind in ("enospc", "eio_write"):
+                err = errno.ENOSPC if kind == "enospc" else errno.EIO
+                if j:
+                    r = _REAL["os_write"](fd, bytes(memoryview(data).cast("B")[:j]))
+                    self.stamp_fd(fd)
+                    return r
+                raise OSError(err, os.strerror(err) + " (injected)")
+        r = _REAL["os_write"](fd, data)
+        self.stamp_fd(fd)
+        return r
+
+    def sim_os_close(self, fd):
+        self.raw_fds.pop(fd, None)
+        return _REAL["os_close"](fd)
+
+    def sim_ftruncate(self, fd, length):
+        ent = self.raw_fds.get(fd)
+        if ent is None or self.suspended:
+            return _REAL["ftruncate"](fd, length)
+        if ent[1].zombie:
+            return None
+        self.event("truncate", ent[0], 0, True)
+        r = _REAL["ftruncate"](fd, length)
+        self.stamp_fd(fd)
+        return r
 
     def sim_getpid(self):
         if self.suspended:
@@ -757,7 +810,14 @@ class World:
         os.utime = self.sim_utime
         os.truncate = self.sim_truncate
         os.open = self.sim_os_open
+        os.write = self.sim_os_write
+        os.close = self.sim_os_close
+        os.ftruncate = self.sim_ftruncate
         os.getpid = self.sim_getpid
+        # no in-kernel copies behind our back: shutil falls back to read()/write()
+        self._old_shutil = (shutil._USE_CP_SENDFILE, getattr(shutil, "_HAS_FCOPYFILE", False))
+        shutil._USE_CP_SENDFILE = False
+        shutil._HAS_FCOPYFILE = False
         time.time = self.sim_time
         time.time_ns = self.sim_time_ns
         self._old_unraisable = sys.unraisablehook
@@ -779,6 +839,10 @@ class World:
         os.utime = _REAL["utime"]
         os.truncate = _REAL["truncate"]
         os.open = _REAL["os_open"]
+        os.write = _REAL["os_write"]
+        os.close = _REAL["os_close"]
+        os.ftruncate = _REAL["ftruncate"]
+        shutil._USE_CP_SENDFILE, shutil._HAS_FCOPYFILE = self._old_shutil
         os.getpid = _REAL["getpid"]
         time.time = _REAL["time"]
         time.time_ns = _REAL["time_ns"]
@@ -855,9 +919,25 @@ class World:
                 except OSError:
                     pass
         self.open_files = [r for r in self.open_files if r() is not None and not r().closed]
+        for fd, (_rel, owner) in list(self.raw_fds.items()):
+            if owner is proc:  # the kernel closes a dead (or finished) process's descriptors
+                self.raw_fds.pop(fd, None)
+                try:
+                    _REAL["os_close"](fd)
+                except OSError:
+                    pass
         proc.done = True
 
+    def close_raw_fds(self):
+        for fd in list(self.raw_fds):
+            self.raw_fds.pop(fd, None)
+            try:
+                _REAL["os_close"](fd)
+            except OSError:
+                pass
+
     def close_all(self, flush=False):
+        self.close_raw_fds()
         for r in list(self.open_files):
             f = r()
             if f is None or f.closed:
